@@ -878,7 +878,34 @@ class MatrixOperator(Operator):
         -------
         adjoint : `MatrixOperator`
         """
-        return MatrixOperator(self.matrix.conj().T,
+        # Lazy import to improve `import odl` time
+        import scipy.sparse
+
+        adj_matrix = self.matrix.conj().T
+
+        # The adjoint w.r.t. weighted inner products is
+        # ``W_dom^(-1) A^H W_ran``, which reduces to ``A^H`` only for equal
+        # constant weightings.
+        dom_w, ran_w = self.domain.weighting, self.range.weighting
+        dom_const = getattr(dom_w, 'const', None)
+        ran_const = getattr(ran_w, 'const', None)
+        if dom_const is not None and ran_const is not None:
+            if dom_const != ran_const:
+                adj_matrix = adj_matrix * (ran_const / dom_const)
+        elif (self.domain.ndim == 1 and self.range.ndim == 1 and
+              not scipy.sparse.isspmatrix(adj_matrix) and
+              all(hasattr(w, 'const') or hasattr(w, 'array')
+                  for w in (dom_w, ran_w))):
+            dom_arr = getattr(dom_w, 'array', dom_const)
+            ran_arr = getattr(ran_w, 'array', ran_const)
+            adj_matrix = (adj_matrix * np.reshape(ran_arr, (1, -1)) /
+                          np.reshape(dom_arr, (-1, 1)))
+        else:
+            raise NotImplementedError(
+                'adjoint not implemented for domain weighting {!r} and '
+                'range weighting {!r}'.format(dom_w, ran_w))
+
+        return MatrixOperator(adj_matrix,
                               domain=self.range, range=self.domain,
                               axis=self.axis)
 
